@@ -6,6 +6,8 @@ import RFV.Model.Arith
 import RFV.Model.Plan
 import RFV.Model.Avx
 import RFV.Model.Spec
+import RFV.Model.Validate
+import RFV.Model.Fp
 
 open RFV
 
@@ -34,7 +36,20 @@ def builtTree (planner : String) (ty : ElemTy) (n : Nat) : Except String Recipe 
   | "avx-noavx2" => (avxPlanAndConstruct ty false (planFuel n) [] n).map (·.1)
   | _ => .error "bad planner"
 
+/-- `fp;p;N;omega;fwd|inv;tree;re im re im …` -/
+def answerFp (fields : List String) : String :=
+  match fields with
+  | [_, p, n, w, dir, tree, vals] =>
+    match p.toNat?, n.toNat?, w.toNat?, Recipe.parse tree with
+    | some p, some n, some w, some t =>
+      let vs := (vals.splitOn " ").filterMap (fun (s : String) => s.toNat?)
+      if t.len = 0 then "" else
+      " ".intercalate ((runFp p n w (dir == "inv") t vs).map toString)
+    | _, _, _, _ => "bad-op"
+  | _ => "bad-op"
+
 def answer (line : String) : String :=
+  if line.startsWith "fp;" then answerFp (line.trimAscii.toString.splitOn ";") else
   match line.trimAscii.toString.splitOn " " with
   | ["pf", n] =>
     match n.toNat? with
@@ -86,6 +101,20 @@ def answer (line : String) : String :=
     match n.toNat?, parseTy ty with
     | some n, some ty => fmtExcept ((builtTree planner ty n).map Recipe.text)
     | _, _ => "bad-op"
+  | ["helper", kind, a, b, c, d, e] =>
+    match a.toNat?, b.toNat?, c.toNat?, d.toNat?, e.toNat? with
+    | some a, some b, some c, some d, some e =>
+      -- a = data/input len, b = output len (ignored for inplace), c = scratch len, d = chunk, e = required scratch
+      let r := match kind with
+        | "inplace" => helperInplace a c d e
+        | "oop" => helperOop a b c d e
+        | "immut" => helperOop a b c d e
+        | "inplace2x" => helperInplaceUnroll2x a d
+        | "oop2x" => helperOopUnroll2x a b d
+        | "immut2x" => helperOopUnroll2x a b d
+        | _ => ([], Outcome.returned)
+      s!"{r.2.text} {callsText r.1}"
+    | _, _, _, _, _ => "bad-op"
   | _ => "bad-op"
 
 partial def loop (h : IO.FS.Stream) (out : IO.FS.Stream) : IO Unit := do
